@@ -10,14 +10,20 @@ Property oracle (on the implementation only, independent of Lean and of rdflib.c
 Violation tags:  rt-<fmt> (graph differs), ser-<fmt> (serializer raised), parse-<fmt> (rdflib cannot read its own
 output), hang-<fmt> (no return within FMT_TIMEOUT_S), timeout (core watchdog).
 
-Observations compared with the Lean model (lean/RV/C03/Drive.lean), per sampled literal of the graph:
-    the text rdflib's N-Triples writer produced, decoded by the MODEL's W3C N-Triples string grammar -> lexical form;
-    the text Literal._quote_encode produced, decoded by the MODEL's W3C Turtle string grammars    -> lexical form;
-    the MODEL's encodings, read by rdflib's N-Triples / Turtle parsers                            -> lexical form;
-    the numeric/boolean shorthand token the Turtle writer emitted, re-lexed by the MODEL's token grammar -> datatype;
-    the writer's shorthand-or-quoted decision against the model's (external normalisation supplied as data).
-and per graph: the blank nodes the Turtle writer did not label (inlined `[…]` or list cells), checked by the MODEL
-against `Pre` (the hypothesis of layout_roundtrip).
+Observations compared with the Lean model (lean/RV/C03/Drive.lean).  All of them are taken from PUBLIC behaviour
+(serializer output of one-triple graphs, reader results), none from private state:
+  per sampled literal of the graph
+    ntdec / tdec   the text rdflib's N-Triples / Turtle writer produced for the lexical form, decoded by the MODEL's
+                   W3C string grammars                                                   -> the lexical form
+    ntenc / tenc   the MODEL's encodings, read by rdflib's N-Triples / Turtle parsers    -> the lexical form
+    relex, plain   the numeric/boolean shorthand token the Turtle writer emitted: re-lexed by the MODEL's token
+                   grammar -> the datatype; accepted by the model of `_literal_label` (normalisation supplied as data)
+  per sampled triple / object
+    ntparse, ntrow whole N-Triples lines, both directions;  hextp, hext  HexTuples columns, both directions
+  per graph
+    vl             TurtleSerializer.isValidList on every list-head candidate  vs  the model's isValidList
+    pre            the blank nodes the Turtle / longturtle / N3 text leaves unlabelled (read off by an independent
+                   scanner) must pass the model's preCheck, which `preCheck_pre` proves sufficient for `Pre`
 """
 from __future__ import annotations
 
@@ -62,7 +68,9 @@ ASSUMPTIONS = [
     "lone surrogates are not Unicode scalar values and occur in no literal",
 ]
 TRUSTED = ["harness/c03.py, harness/graphgen.py generators; harness/isoutil.py isomorphism oracle",
-           "lean/RV/C03/Drive.lean line protocol"]
+           "harness/c03tables.py copies the writers' replace chains from rdflib's source into lean/RV/C03/Tables.lean",
+           "lean/RV/C03/Drive.lean line protocol",
+           "RDF/XML, pretty-xml, JSON-LD and all text layout: no Lean model; tied by the round trip on the implementation"]
 
 
 class _FmtTimeout(Exception):
